@@ -477,6 +477,26 @@ func (s *Server) fault(w http.ResponseWriter, r *http.Request, f Fault, body []b
 	case "reset":
 		hijackClose(w, true)
 		return true
+	case "slow":
+		// a healthy transfer that takes CutAt seconds: the body trickles in 1-second steps
+		w.Header().Set("Content-Type", "application/gzip")
+		w.Header().Set("Content-Length", fmt.Sprint(len(body)))
+		w.WriteHeader(200)
+		steps := f.CutAt
+		if steps < 1 {
+			steps = 1
+		}
+		for i := 0; i < steps; i++ {
+			lo, hi := len(body)*i/steps, len(body)*(i+1)/steps
+			w.Write(body[lo:hi])
+			if fl, ok := w.(http.Flusher); ok {
+				fl.Flush()
+			}
+			if i < steps-1 {
+				time.Sleep(time.Second)
+			}
+		}
+		return true
 	case "cut":
 		hj, ok := w.(http.Hijacker)
 		if !ok {
